@@ -107,10 +107,27 @@ def apply_op(mpc, secfld, op, x, c):
     if op == 'or': return x[0] | x[1]
     if op == 'xor': return x[0] ^ x[1]
     if op == 'inv': return ~x[0]
-    if op == 'bits_rt': return mpc.from_bits(mpc.to_bits(x[0]))
-    if op == 'sum': return mpc.sum(list(x))
-    if op == 'prod': return mpc.prod(list(x))
-    if op == 'inprod': return mpc.in_prod([x[0], x[2]], [x[1], x[3]])
+    if op == 'bits_rt':
+        bits = mpc.to_bits(x[0])
+        r = mpc.from_bits(bits)
+        if len(bits) > 1:
+            bits.append(bits.pop(0))            # the caller goes on using its bit list (here: rotates it) right after the call
+        return r
+    if op == 'sum':
+        a = list(x)
+        r = mpc.sum(a)
+        a.reverse(); a[0] = a[-1]
+        return r
+    if op == 'prod':
+        a = list(x)
+        r = mpc.prod(a)
+        a.reverse(); a[0] = a[-1]
+        return r
+    if op == 'inprod':
+        a, b = [x[0], x[2]], [x[1], x[3]]
+        r = mpc.in_prod(a, b)
+        a[0], b[1] = b[1], a[0]
+        return r
     if op == 'ifelse': return mpc.if_else(x[0], x[1], x[2])
     if op == 'iszero': return mpc.is_zero(x[0])
     if op == 'iszero_pub': return mpc.is_zero_public(x[0])
